@@ -59,12 +59,12 @@ Section Moved.
   Hypothesis Hft : from <> to.
   Hypothesis W : wfP s.
   Hypothesis V : staking_validate from to s = Ok tt.
-  Hypothesis X : staking_execute from to (bank_execute from to s) = Ok s1.
+  Hypothesis X : staking_execute from to (bank_move from to s) = Ok s1.
 
   Let s' := set_record from to s1.
 
   Lemma s1_closed :
-    s1 = set_stake (set_start (bank_execute from to s) (fold_left (start_step from to) (Ld from s) (start s)))
+    s1 = set_stake (set_start (bank_move from to s) (fold_left (start_step from to) (Ld from s) (start s)))
                    (stake_after from to s).
   Proof. apply staking_execute_closed in X. exact X. Qed.
 
@@ -96,7 +96,7 @@ Section Moved.
   Lemma p_start : start s' = fold_left (start_step from to) (Ld from s) (start s).
   Proof. unfold s'. rewrite s1_closed. reflexivity. Qed.
 
-  Lemma p_bal : bal s' = bal (bank_execute from to s).
+  Lemma p_bal : bal s' = bal (bank_move from to s).
   Proof. unfold s'. rewrite s1_closed. reflexivity. Qed.
 
   Lemma m_del : forall a v, del_of s' a v = sel from to a (option_map (to_del to) (del_of s from v)) None (del_of s a v).
@@ -140,7 +140,7 @@ Section Moved.
 
   Lemma m_bal : forall a d, bal_of s' a d = sel from to a (bal_of s to d + bal_of s from d) 0 (bal_of s a d).
   Proof.
-    intros a d. unfold bal_of at 1. rewrite p_bal. fold (bal_of (bank_execute from to s) a d).
+    intros a d. unfold bal_of at 1. rewrite p_bal. fold (bal_of (bank_move from to s) a d).
     rewrite bank_execute_char by (try exact Hft; apply (wf_bal s W)). reflexivity.
   Qed.
 
@@ -243,7 +243,7 @@ Section Moved.
 
   Lemma m_supply : forall d, supply s' d = supply s d.
   Proof.
-    intros d. unfold supply at 1. rewrite p_bal. fold (supply (bank_execute from to s) d).
+    intros d. unfold supply at 1. rewrite p_bal. fold (supply (bank_move from to s) d).
     apply bank_execute_supply; [exact Hft | apply (wf_bal s W)].
   Qed.
 
